@@ -95,6 +95,10 @@ def run(repo: Repo, rep: Report, tier: str) -> None:
 
     def _transport_rules(tr: Function, rep) -> None:
         # ---------------------------------------------------------------- R6.1 / R6.2 transport
+        if any(isinstance(n, ast.Raise) and n.exc is not None and isinstance(n.exc, ast.Call) and isinstance(n.exc.func, ast.Call) for n in own_nodes(tr.node)):
+            from sa.flatten import flatten as _fl62
+
+            tr = _fl62(tr)  # `raise _error_class_for_status(status)(...)`: the class choice lives in a helper
         cfg = CFG(tr.node)
         dom = cfg.dominators()
         raises = [n for n in cfg.nodes if isinstance(n.ast, ast.Raise) and not n.copy]
